@@ -20,6 +20,12 @@ import (
 //	validate <hashes> <flags> <relids> <root> #<expect>:<kind>:<detail>  => true|false
 //	ppt <n>                                           => prevPowerOfTwo(n)
 //
+//	reset                                             => ok   (case boundary: proof generation is also
+//	                                                  exercised in SEQUENCES within one process — lists of
+//	                                                  equal length and equal first id that differ elsewhere,
+//	                                                  repeated requests for one list — so a failing line is
+//	                                                  replayed together with the lines before it)
+//
 // Lists are comma separated hex, "-" = empty.  The `#…` word is ignored by the model driver;
 // it carries the DIRECT ORACLE's expectation (true / false / any) so that a single line is
 // a complete replay: completeness (generated proof validates), wrong root, foreign id,
@@ -130,6 +136,61 @@ func c30validate(hs []bc.Hash, fs []uint8, rel []bc.Hash, root bc.Hash) (res boo
 	return types.ValidateTxMerkleTreeProof(hp, fs, rp, root), ""
 }
 
+// leaf hash of an id (= merkle root of the one-element list)
+func c30leaf(id bc.Hash) bc.Hash { return c30root([]bc.Hash{id}) }
+
+// is rel an in-order sub-list of distinct ids?
+func c30ordered(ids, rel []bc.Hash) bool {
+	seen := map[bc.Hash]bool{}
+	for _, x := range ids {
+		if seen[x] {
+			return false
+		}
+		seen[x] = true
+	}
+	j := 0
+	for _, r := range rel {
+		for j < len(ids) && ids[j] != r {
+			j++
+		}
+		if j == len(ids) {
+			return false
+		}
+		j++
+	}
+	return true
+}
+
+// one proof line + the direct oracles on the generated proof: it contains exactly the requested
+// leaves (in order) and validates against the list's OWN root
+func c30proofOp(c *Ctx, ids, rel []bc.Hash, det string) ([]bc.Hash, []uint8) {
+	hs, fs := c30proof(ids, rel)
+	c.Op(fmt.Sprintf("proof %s %s", c30list(ids), c30list(rel)), c30list(hs)+" "+c30flags(fs))
+	if !c30ordered(ids, rel) {
+		return hs, fs
+	}
+	var leaves []bc.Hash
+	hi := 0
+	for _, f := range fs {
+		if f == types.FlagTxParent {
+			continue
+		}
+		if hi < len(hs) && f == types.FlagTxLeaf {
+			leaves = append(leaves, hs[hi])
+		}
+		hi++
+	}
+	want := make([]bc.Hash, len(rel))
+	for i := range rel {
+		want[i] = c30leaf(rel[i])
+	}
+	if len(ids) > 0 && c30list(leaves) != c30list(want) {
+		c.Fail("proof-leaves:"+det, fmt.Sprintf("generated proof marks leaves %s, requested %s", c30list(leaves), c30list(want)))
+	}
+	c30val(c, hs, fs, rel, c30root(ids), "true", "complete", det)
+	return hs, fs
+}
+
 // one validate line + oracle
 func c30val(c *Ctx, hs []bc.Hash, fs []uint8, rel []bc.Hash, root bc.Hash, expect, kind, detail string) bool {
 	res, pan := c30validate(hs, fs, rel, root)
@@ -168,6 +229,8 @@ func c30exec(c *Ctx, line string) {
 		return
 	}
 	switch {
+	case w[0] == "reset":
+		c.Op(line, "ok")
 	case w[0] == "root" && len(w) >= 2:
 		ids, ok := c30parseList(w[1])
 		if !ok {
@@ -180,8 +243,7 @@ func c30exec(c *Ctx, line string) {
 		if !ok1 || !ok2 {
 			return
 		}
-		hs, fs := c30proof(ids, rel)
-		c.Op(line, c30list(hs)+" "+c30flags(fs))
+		c30proofOp(c, ids, rel, fmt.Sprintf("replay,n=%d", len(ids)))
 	case w[0] == "validate" && len(w) >= 5:
 		hs, ok1 := c30parseList(w[1])
 		fs, ok2 := c30parseFlags(w[2])
@@ -285,13 +347,11 @@ func c30case(c *Ctx, ids []bc.Hash, idx []int, maxTamper int) {
 	n := len(ids)
 	rel := c30sub(ids, idx)
 	root := c30root(ids)
-	hs, fs := c30proof(ids, rel)
-	c.Op(fmt.Sprintf("proof %s %s", c30list(ids), c30list(rel)), c30list(hs)+" "+c30flags(fs))
+	det := fmt.Sprintf("n=%d,sub=%s", n, c30idxStr(idx))
+	// generation + completeness (+ exactly the requested leaves)
+	hs, fs := c30proofOp(c, ids, rel, det)
 	c.Count(fmt.Sprintf("proof/n=%02d", n))
 	c.Count(fmt.Sprintf("subset-size/%02d", len(idx)))
-	det := fmt.Sprintf("n=%d,sub=%s", n, c30idxStr(idx))
-	// completeness
-	c30val(c, hs, fs, rel, root, "true", "complete", det)
 	// wrong root
 	wr := c30randHash(c)
 	switch c.Rng.Intn(3) {
@@ -432,6 +492,66 @@ func c30random(c *Ctx, ids []bc.Hash) {
 	c30val(c, hs, fs, rel, root, expect, "random-stream", fmt.Sprintf("n=%d", n))
 }
 
+// proof generation in a SEQUENCE within one process: lists of the same length with the same first
+// id (two competing blocks with the same coinbase) that differ in one or more other leaves, and
+// repeated requests for one list with different related sets
+func c30sequence(c *Ctx, n int) {
+	c.Op("reset", "ok")
+	base := c30ids(c, n)
+	variants := [][]bc.Hash{base}
+	for v := 0; v < 2+c.Rng.Intn(2); v++ {
+		w := append([]bc.Hash{}, variants[c.Rng.Intn(len(variants))]...)
+		if n >= 2 {
+			for k := 0; k < 1+c.Rng.Intn(2); k++ {
+				pos := 1 + c.Rng.Intn(n-1)
+				for {
+					h := c30randHash(c)
+					dup := false
+					for _, x := range w {
+						if x == h {
+							dup = true
+						}
+					}
+					if !dup {
+						w[pos] = h
+						break
+					}
+				}
+			}
+		}
+		variants = append(variants, w)
+	}
+	steps := 4 + c.Rng.Intn(5)
+	for s := 0; s < steps; s++ {
+		ids := variants[c.Rng.Intn(len(variants))]
+		if s < len(variants) {
+			ids = variants[s] // every variant once, in order, first
+		}
+		var idx []int
+		switch c.Rng.Intn(4) {
+		case 0:
+			if n > 0 {
+				idx = []int{c.Rng.Intn(n)}
+			}
+		case 1:
+			if n > 0 {
+				idx = []int{0}
+			}
+		default:
+			p := []int{2, 3, 5}[c.Rng.Intn(3)]
+			for i := 0; i < n; i++ {
+				if c.Rng.Intn(p) == 0 {
+					idx = append(idx, i)
+				}
+			}
+		}
+		det := fmt.Sprintf("seq,n=%d,step=%d,sub=%s", n, s, c30idxStr(idx))
+		c.Op("root "+c30list(ids), c30hex(c30root(ids)))
+		c30proofOp(c, ids, c30sub(ids, idx), det)
+		c.Count("sequence-steps")
+	}
+}
+
 func c30subsets(c *Ctx, n int, all bool, k int) [][]int {
 	var out [][]int
 	if all {
@@ -469,7 +589,7 @@ func c30subsets(c *Ctx, n int, all bool, k int) [][]int {
 }
 
 func runC30(c *Ctx) {
-	c.Rule = "for every list size 0..64 of distinct ids: root; subsets (all subsets for small n, else empty/full/first/last/random); per subset the generated proof, its validation, a wrong root, a foreign related id, every (small n) or sampled tampering of one proof hash and one flag, a non-canonical valid proof; random flag/hash streams; duplicate-id and out-of-order lists (differential only); prevPowerOfTwo on a range and around all powers of two up to 2^31. A case is distinct by its full op line."
+	c.Rule = "proof requests in SEQUENCES within one process (lists of equal length and equal first id differing in other leaves, repeated requests with different related sets; every generated proof must mark exactly the requested leaves and validate against the list's own root); for every list size 0..64 of distinct ids: root; subsets (all subsets for small n, else empty/full/first/last/random); per subset the generated proof, its validation, a wrong root, a foreign related id, every (small n) or sampled tampering of one proof hash and one flag, a non-canonical valid proof; random flag/hash streams; duplicate-id and out-of-order lists (differential only); prevPowerOfTwo on a range and around all powers of two up to 2^31. A case is distinct by its full op line."
 	if c.Replay != "" {
 		for _, l := range c.ReplayLines() {
 			c30exec(c, l)
@@ -498,7 +618,15 @@ func runC30(c *Ctx) {
 			}
 		}
 	}
+	// sequences of proof requests within this process
+	for _, n := range []int{1, 2, 3, 4, 5, 8, 13, 33} {
+		c30sequence(c, n)
+	}
+	for i := 0; i < c.N/10; i++ {
+		c30sequence(c, 1+c.Rng.Intn(20))
+	}
 	for n := 0; n <= 64; n++ {
+		c.Op("reset", "ok")
 		ids := c30ids(c, n)
 		c.Op("root "+c30list(ids), c30hex(c30root(ids)))
 		mt := maxTamper
@@ -511,6 +639,7 @@ func runC30(c *Ctx) {
 	}
 	// random sizes, N cases
 	for i := 0; i < c.N; i++ {
+		c.Op("reset", "ok")
 		n := c.Rng.Intn(65)
 		if c.Rng.Intn(2) == 0 {
 			n = c.Rng.Intn(12)
